@@ -12,7 +12,7 @@ Section Proofs.
 Variable tps : nat -> third.
 Variable sub : sevt -> bool.
 Notation plain := (plain tps).
-Notation pyc := (pyc tps sub true true).
+Notation pyc := (pyc tps sub true true true).
 Notation call_tp := (call_tp tps).
 
 Lemma hl_app a b : handler_log (a ++ b) = handler_log a ++ handler_log b.
@@ -29,7 +29,7 @@ Definition rel (acc : bool) (ft : pyf) (lp : option tpf) : Prop :=
   ft = if acc then PComp lp else match lp with None => PNone | Some f => PComp (Some f) end.
 
 Lemma event_step g acc name ft lp e : rel acc ft lp ->
-  let '(ft1, l) := py_event tps sub true g acc name ft e in
+  let '(ft1, l) := py_event tps sub true true g acc name ft e in
   let '(lp1, lpl) := match g, lp with Some _, Some f => let '(r, l0) := call_tp f e name in (keep lp r, l0) | _, _ => (lp, []) end in
   rel acc ft1 lp1 /\ handler_log l = (if acc && sub e then [(e, name)] else []) /\ third_log l = lpl.
 Proof.
@@ -57,7 +57,7 @@ Definition good (n : node) : Prop := forall g,
   handler_log (snd (pyc g n)) = filter (fun e => sub (fst e)) (events n).
 
 Lemma items_good acc name its : Forall good its -> forall g ft lp, rel acc ft lp ->
-  let '(ex1, ft1, l1) := py_items tps sub true pyc acc name its g ft in
+  let '(ex1, ft1, l1) := py_items tps sub true true pyc acc name its g ft in
   let '(g1, lp1, lp_log) := plain_items tps plain name its g lp in
   ex1 = g1 /\ rel acc ft1 lp1 /\ third_log l1 = lp_log /\
   handler_log l1 = filter (fun e => sub (fst e)) (events_items events acc name its).
@@ -70,47 +70,47 @@ Proof.
       destruct (pyc g (Nd (TFrame a nm) cs)) as [ex1 l] eqn:Ep. destruct (plain g (Nd (TFrame a nm) cs)) as [g1 lpl] eqn:Epl.
       cbn [fst snd] in G1, G2, G3. subst ex1.
       specialize (IH g1 ft lp R).
-      destruct (py_items tps sub true pyc acc name its g1 ft) as [[ex2 ft2] l']. destruct (plain_items tps plain name its g1 lp) as [[g2 lp2] lpl'].
+      destruct (py_items tps sub true true pyc acc name its g1 ft) as [[ex2 ft2] l']. destruct (plain_items tps plain name its g1 lp) as [[g2 lp2] lpl'].
       destruct IH as (I1 & I2 & I3 & I4). repeat split; try assumption.
       * rewrite tl_app, G2, I3. reflexivity.
       * rewrite hl_app, G3, I4, filter_app. reflexivity.
     + (* line *)
       pose proof (event_step g acc name ft lp SLine R) as Hs.
-      destruct (py_event tps sub true g acc name ft SLine) as [ft1 l].
+      destruct (py_event tps sub true true g acc name ft SLine) as [ft1 l].
       destruct g as [i|]; [destruct lp as [f|]|].
       * destruct (call_tp f SLine name) as [r l0] eqn:Ec. destruct Hs as (R1 & Hh & Ht).
         specialize (IH (Some i) ft1 (keep (Some f) r) R1).
-        destruct (py_items tps sub true pyc acc name its (Some i) ft1) as [[ex2 ft2] l']. destruct (plain_items tps plain name its (Some i) (keep (Some f) r)) as [[g2 lp2] lpl'].
+        destruct (py_items tps sub true true pyc acc name its (Some i) ft1) as [[ex2 ft2] l']. destruct (plain_items tps plain name its (Some i) (keep (Some f) r)) as [[g2 lp2] lpl'].
         destruct IH as (I1 & I2 & I3 & I4). repeat split; try assumption.
         -- rewrite tl_app, Ht, I3. reflexivity.
         -- rewrite hl_app, Hh, I4, filter_app. f_equal. destruct acc; cbn; [destruct (sub SLine)|]; reflexivity.
       * destruct Hs as (R1 & Hh & Ht). specialize (IH (Some i) ft1 None R1).
-        destruct (py_items tps sub true pyc acc name its (Some i) ft1) as [[ex2 ft2] l']. destruct (plain_items tps plain name its (Some i) None) as [[g2 lp2] lpl'].
+        destruct (py_items tps sub true true pyc acc name its (Some i) ft1) as [[ex2 ft2] l']. destruct (plain_items tps plain name its (Some i) None) as [[g2 lp2] lpl'].
         destruct IH as (I1 & I2 & I3 & I4). repeat split; try assumption.
         -- rewrite tl_app, Ht, I3. reflexivity.
         -- rewrite hl_app, Hh, I4, filter_app. f_equal. destruct acc; cbn; [destruct (sub SLine)|]; reflexivity.
       * destruct Hs as (R1 & Hh & Ht). specialize (IH None ft1 lp R1).
-        destruct (py_items tps sub true pyc acc name its None ft1) as [[ex2 ft2] l']. destruct (plain_items tps plain name its None lp) as [[g2 lp2] lpl'].
+        destruct (py_items tps sub true true pyc acc name its None ft1) as [[ex2 ft2] l']. destruct (plain_items tps plain name its None lp) as [[g2 lp2] lpl'].
         destruct IH as (I1 & I2 & I3 & I4). repeat split; try assumption.
         -- rewrite tl_app, Ht, I3. reflexivity.
         -- rewrite hl_app, Hh, I4, filter_app. f_equal. destruct acc; cbn; [destruct (sub SLine)|]; reflexivity.
     + (* exception *)
       pose proof (event_step g acc name ft lp SExc R) as Hs.
-      destruct (py_event tps sub true g acc name ft SExc) as [ft1 l].
+      destruct (py_event tps sub true true g acc name ft SExc) as [ft1 l].
       destruct g as [i|]; [destruct lp as [f|]|].
       * destruct (call_tp f SExc name) as [r l0] eqn:Ec. destruct Hs as (R1 & Hh & Ht).
         specialize (IH (Some i) ft1 (keep (Some f) r) R1).
-        destruct (py_items tps sub true pyc acc name its (Some i) ft1) as [[ex2 ft2] l']. destruct (plain_items tps plain name its (Some i) (keep (Some f) r)) as [[g2 lp2] lpl'].
+        destruct (py_items tps sub true true pyc acc name its (Some i) ft1) as [[ex2 ft2] l']. destruct (plain_items tps plain name its (Some i) (keep (Some f) r)) as [[g2 lp2] lpl'].
         destruct IH as (I1 & I2 & I3 & I4). repeat split; try assumption.
         -- rewrite tl_app, Ht, I3. reflexivity.
         -- rewrite hl_app, Hh, I4, filter_app. f_equal. destruct acc; cbn; [destruct (sub SExc)|]; reflexivity.
       * destruct Hs as (R1 & Hh & Ht). specialize (IH (Some i) ft1 None R1).
-        destruct (py_items tps sub true pyc acc name its (Some i) ft1) as [[ex2 ft2] l']. destruct (plain_items tps plain name its (Some i) None) as [[g2 lp2] lpl'].
+        destruct (py_items tps sub true true pyc acc name its (Some i) ft1) as [[ex2 ft2] l']. destruct (plain_items tps plain name its (Some i) None) as [[g2 lp2] lpl'].
         destruct IH as (I1 & I2 & I3 & I4). repeat split; try assumption.
         -- rewrite tl_app, Ht, I3. reflexivity.
         -- rewrite hl_app, Hh, I4, filter_app. f_equal. destruct acc; cbn; [destruct (sub SExc)|]; reflexivity.
       * destruct Hs as (R1 & Hh & Ht). specialize (IH None ft1 lp R1).
-        destruct (py_items tps sub true pyc acc name its None ft1) as [[ex2 ft2] l']. destruct (plain_items tps plain name its None lp) as [[g2 lp2] lpl'].
+        destruct (py_items tps sub true true pyc acc name its None ft1) as [[ex2 ft2] l']. destruct (plain_items tps plain name its None lp) as [[g2 lp2] lpl'].
         destruct IH as (I1 & I2 & I3 & I4). repeat split; try assumption.
         -- rewrite tl_app, Ht, I3. reflexivity.
         -- rewrite hl_app, Hh, I4, filter_app. f_equal. destruct acc; cbn; [destruct (sub SExc)|]; reflexivity.
@@ -127,10 +127,10 @@ Proof.
   destruct c0 as [r lg]. cbn [snd] in Hc0. destruct Hc0 as (Hh0 & Ht0).
   assert (R0 : rel acc (if acc then PComp r else match r with None => PNone | Some f => PComp (Some f) end) r) by reflexivity.
   pose proof (items_good acc name cs IH g _ r R0) as Hi.
-  destruct (py_items tps sub true pyc acc name cs g _) as [[ex1 ft1] l1]. destruct (plain_items tps plain name cs g r) as [[g1 lp1] lpl].
+  destruct (py_items tps sub true true pyc acc name cs g _) as [[ex1 ft1] l1]. destruct (plain_items tps plain name cs g r) as [[g1 lp1] lpl].
   destruct Hi as (E1 & R1 & Ht1 & Hh1). subst ex1.
   pose proof (event_step g1 acc name ft1 lp1 SRet R1) as Hs.
-  destruct (py_event tps sub true g1 acc name ft1 SRet) as [ft2 l2]. cbn [fst snd].
+  destruct (py_event tps sub true true g1 acc name ft1 SRet) as [ft2 l2]. cbn [fst snd].
   assert (Hret : handler_log l2 = (if acc && sub SRet then [(SRet, name)] else []) /\
                  third_log l2 = match g1, lp1 with Some _, Some f => snd (call_tp f SRet name) | _, _ => [] end).
   { destruct g1 as [i|]; [destruct lp1 as [f|]|]; [destruct (call_tp f SRet name) as [r' l0]| |]; destruct Hs as (_ & A & B); split; assumption. }
@@ -144,11 +144,20 @@ End Proofs.
 
 (* the two repaired defects as witnesses: third party 0 is installed before the context; user code calls sys.settrace(None) between two
    lines of a running frame *)
-Definition tp_all : nat -> third := fun _ => {| tp_accepts := fun _ => true; tp_self := false |}.
+Definition tp_all : nat -> third := fun _ => {| tp_accepts := fun _ => true; tp_self := false; tp_switch := false |}.
+Definition tp_sw : nat -> third := fun _ => {| tp_accepts := fun _ => true; tp_self := false; tp_switch := true |}.
 Definition ex_hist (acc : bool) : node := Nd (TFrame acc 1%N) [Nd TLine []; Nd (TSet None) []; Nd TLine []].
 Example no_uninstall_check_refuted :
-  third_log (snd (model.SysHist.pyc tp_all (fun _ => true) false true (Some 0) (ex_hist true))) <> snd (model.SysHist.plain tp_all (Some 0) (ex_hist true)).
+  third_log (snd (model.SysHist.pyc tp_all (fun _ => true) false true true (Some 0) (ex_hist true))) <> snd (model.SysHist.plain tp_all (Some 0) (ex_hist true)).
 Proof. vm_compute. discriminate. Qed.
 Example raw_foreign_refuted :
-  third_log (snd (model.SysHist.pyc tp_all (fun _ => true) true false (Some 0) (ex_hist false))) <> snd (model.SysHist.plain tp_all (Some 0) (ex_hist false)).
+  third_log (snd (model.SysHist.pyc tp_all (fun _ => true) true false true (Some 0) (ex_hist false))) <> snd (model.SysHist.plain tp_all (Some 0) (ex_hist false)).
 Proof. vm_compute. discriminate. Qed.
+
+(* a third party whose local function hands over to a second one at its first event (the pattern of debuggers: until the first line,
+   then the rest): without following it (before the repair) the first function keeps receiving everything *)
+Definition ex_sw : node := Nd (TFrame true 1%N) [Nd TLine []; Nd TLine []].
+Example no_rebind_refuted :
+  third_log (snd (model.SysHist.pyc tp_sw (fun _ => true) true true false (Some 0) ex_sw)) <> snd (model.SysHist.plain tp_sw (Some 0) ex_sw)
+  /\ snd (model.SysHist.plain tp_sw (Some 0) ex_sw) = [(WG 0, SCall, 1%N); (WL 0, SLine, 1%N); (WL2 0, SLine, 1%N); (WL2 0, SRet, 1%N)].
+Proof. vm_compute. split; [discriminate|reflexivity]. Qed.
